@@ -22,6 +22,13 @@ def load(path):
         return None
 
 
+def origin_of(d):
+    try:
+        return open(os.path.join(d, "ORIGIN.txt")).read().strip()
+    except OSError:
+        return "written by a sub-agent that saw only the property text and a scratch worktree"
+
+
 def detected(results):
     return sorted(k for k, v in (results or {}).items() if v.get("exit") == 1)
 
@@ -51,7 +58,7 @@ def main():
                              "(tools/baseline_off.sh)",
             }
         else:
-            prop = name.split("-")[0]
+            prop = name.split("-")[1] if name.startswith("M-") else name.split("-")[0]
             am = load(os.path.join(d, "agent_meta.json")) or {}
             conf = ""
             try:
@@ -60,7 +67,7 @@ def main():
                 pass
             m = re.search(r"RESULT (.*)", conf)
             meta = {
-                "id": name, "property": prop, "origin": "written by a sub-agent that saw only the property text and a scratch worktree",
+                "id": name, "property": prop, "origin": origin_of(d),
                 "summary": am.get("summary"), "mechanism": am.get("mechanism"),
                 "needs_to_manifest": am.get("needs_to_manifest"), "files_changed": am.get("files_changed"),
                 "confirmed": (m.group(1) if m else "not confirmed") +
